@@ -56,6 +56,40 @@ int main(void) {
 		printf("8 rsa-pss honest signature, %zu-bit modulus: sig = %d, ver = %d (expected 1)\n", bn_bits(pub->crt->n), rs, cp_rsa_ver(sig, sl, msg, sizeof(msg), 0, pub));
 		break;
 	}
+	/* 13. PSS: DB bits above the used digits of maskedDB are never inspected (522-bit modulus: EM bit 520) */
+	for (int c = 0, done = 0; c < 200 && !done; c++) {
+		cp_rsa_gen(pub, prv, 522);
+		if (bn_bits(pub->crt->n) != 522) continue;
+		k = bn_size_bin(pub->crt->n);
+		for (int j = 0; j < 50 && !done; j++) {
+			uint8_t mm[4] = { 'm', (uint8_t)j, 0, 0 };
+			sl = sizeof(sig); cp_rsa_sig(sig, &sl, mm, 4, 0, prv);
+			bn_read_bin(t, sig, sl); bn_mxp(e, t, pub->e, pub->crt->n);
+			if (!bn_get_bit(e, 520)) continue;
+			bn_set_bit(e, 520, 0);                      /* a data bit of maskedDB: DB gets a 1 in its zero padding */
+			bn_mxp(t, e, prv->d, pub->crt->n); memset(sig2, 0, k); bn_write_bin(sig2, k, t);
+			printf("13 rsa-pss 522-bit key, EM bit 520 cleared (DB padding bit set): ver = %d (expected 0)\n", cp_rsa_ver(sig2, k, mm, 4, 0, pub));
+			done = 1;
+		}
+	}
+	/* 14. pre-hashed mode with an empty digest: every valid signature verifies */
+	cp_rsa_gen(pub, prv, 1024);
+	sl = sizeof(sig); cp_rsa_sig(sig, &sl, msg, sizeof(msg), 0, prv);
+	printf("14 rsa-pss pre-hashed, msg_len = 0, signature of another message: ver = %d (expected 0)\n", cp_rsa_ver(sig, sl, msg, 0, 1, pub));
+#endif
+#if CP_RSAPD == PKCS1 || CP_RSAPD == BASIC
+	rsa_null(pub); rsa_null(prv); rsa_new(pub); rsa_new(prv);
+	cp_rsa_gen(pub, prv, 1024);
+	md_map(h, msg, sizeof(msg));
+	sl = sizeof(sig); cp_rsa_sig(sig, &sl, h, RLC_MD_LEN, 1, prv);
+	printf("15 rsa pre-hashed: 31-byte prefix of the signed digest: ver = %d (expected 0); empty digest: ver = %d (expected 0)\n",
+		cp_rsa_ver(sig, sl, h, RLC_MD_LEN - 1, 1, pub), cp_rsa_ver(sig, sl, h, 0, 1, pub));
+#endif
+#if CP_RSAPD == PKCS1
+	cp_rsa_gen(pub, prv, 488);
+	sl = sizeof(sig); int rs = cp_rsa_sig(sig, &sl, msg, sizeof(msg), 0, prv);
+	printf("16 rsa-pkcs1 %zu-byte modulus (tLen + 10; RFC 8017: modulus too short): sig = %d, ver = %d (expected refusal)\n",
+		bn_size_bin(pub->crt->n), rs, cp_rsa_ver(sig, sl, msg, sizeof(msg), 0, pub));
 #endif
 #if defined(WITH_PC)
 	if (pc_param_set_any() == RLC_OK) {
